@@ -111,23 +111,72 @@ func Versions(o *world.Obs, r *world.Call, beforeSeq int64) []model.Version {
 		}
 	}
 	sort.Slice(c304, func(i, j int) bool { return c304[i].EndSeq < c304[j].EndSeq })
-	cur := v0
-	for _, c := range c304 {
-		merged := model.Merge304(cur.Header, c.RespHdr, c.EndNs)
-		restarted := model.Version{Status: r.Status, Header: merged, ReqNs: c.StartNs, RespNs: c.EndNs, Why: "304 s" + strconv.Itoa(c.Serial), Req: c.Header}
-		keptClock := model.Version{Status: r.Status, Header: merged, ReqNs: cur.ReqNs, RespNs: cur.RespNs, Why: "304 s" + strconv.Itoa(c.Serial) + " (old clock)", Req: c.Header}
-		out = append(out, restarted, keptClock)
-		cur = restarted
+	// A cache may legitimately not apply a 304 (e.g. one that arrives for an entry that was
+	// re-validated or replaced while it was in flight), so every order-preserving subset of the
+	// 304s is an admissible history of the entry. Index 0 is the original; the full chain (what a
+	// cache that applies every 304 holds) comes right after the singles.
+	n := len(c304)
+	if n > 7 {
+		c304 = c304[n-7:]
+		n = 7
+	}
+	seen := map[string]bool{}
+	add := func(v model.Version) {
+		key := v.Why + "|" + strconv.FormatInt(v.ReqNs, 10) + "|" + strconv.FormatInt(v.RespNs, 10) + "|" + headerKey(v.Header)
+		if !seen[key] {
+			seen[key] = true
+			out = append(out, v)
+		}
+	}
+	for mask := 1; mask < 1<<n; mask++ {
+		cur := v0
+		why := ""
+		for i := 0; i < n; i++ {
+			if mask&(1<<i) == 0 {
+				continue
+			}
+			c := c304[i]
+			merged := model.Merge304(cur.Header, c.RespHdr, c.EndNs)
+			why += "+s" + strconv.Itoa(c.Serial)
+			restarted := model.Version{Status: r.Status, Header: merged, ReqNs: c.StartNs, RespNs: c.EndNs, Why: "304 " + why, Req: c.Header}
+			keptClock := model.Version{Status: r.Status, Header: merged, ReqNs: cur.ReqNs, RespNs: cur.RespNs, Why: "304 " + why + " (old clock)", Req: c.Header}
+			if mask>>(i+1) == 0 { // last 304 of this subset: both clock variants are admissible results
+				add(restarted)
+				add(keptClock)
+			}
+			cur = restarted
+		}
 	}
 	return out
 }
 
-// LatestVersion is the version a cache that implements freshening (C08) holds.
+func headerKey(h http.Header) string {
+	ks := make([]string, 0, len(h))
+	for k := range h {
+		ks = append(ks, k)
+	}
+	sort.Strings(ks)
+	var b strings.Builder
+	for _, k := range ks {
+		b.WriteString(k)
+		b.WriteByte('=')
+		b.WriteString(strings.Join(h[k], "|"))
+		b.WriteByte(';')
+	}
+	return b.String()
+}
+
+// LatestVersion is the version a cache that applies every 304 (C08) holds: the one built from
+// all 304s with restarted clocks.
 func LatestVersion(vs []model.Version) model.Version {
 	best := vs[0]
+	bestLen := -1
 	for _, v := range vs {
-		if !strings.HasSuffix(v.Why, "(old clock)") {
-			best = v
+		if strings.HasSuffix(v.Why, "(old clock)") {
+			continue
+		}
+		if n := strings.Count(v.Why, "+"); n > bestLen {
+			best, bestLen = v, n
 		}
 	}
 	return best
